@@ -65,7 +65,8 @@ def sizes_program(rng):
         c = rng.below(100)
         if c < 50 or depth <= 0:
             t = rng.pick(list(PRIMS) + ["bool"])
-            return t, ("bool" if t == "bool" else "(int %d)" % PRIMS[t])
+            # (usize and pointers have another size on the wasm target: placeholders, resolved by the caller)
+            return t, ("bool" if t == "bool" else "(int usz)" if t == "usize" else "(int %d)" % PRIMS[t])
         if c < 58:
             t = rng.pick(list(PRIMS))
             return "&" + t, "ptr"
@@ -137,7 +138,7 @@ def sizes_program(rng):
     for t in list(PRIMS) + ["bool"]:
         k = rng.below(9)
         body.append('\tprint!(|:[%d]%s|, "\\n");' % (k, t))
-        queries.append(("|:[%d]%s|" % (k, t), "(arr %d %s)" % (k, "bool" if t == "bool" else "(int %d)" % PRIMS[t])))
+        queries.append(("|:[%d]%s|" % (k, t), "(arr %d %s)" % (k, "bool" if t == "bool" else "(int usz)" if t == "usize" else "(int %d)" % PRIMS[t])))
     decls = blocks + consts
     for a in range(len(decls) - 1, 0, -1):
         b = rng.below(a + 1)
@@ -196,7 +197,27 @@ def main():
     samples.append(srcs[0][:600])
     # (c) sizes
     for i in range(3000 if thorough else 200):
-        src, queries = sizes_program(rng.fork("c%d" % i))
+        src, queries0 = sizes_program(rng.fork("c%d" % i))
+        queries = [(q, lt.replace("usz", "8") if isinstance(lt, str) else lt) for q, lt in queries0]
+        # the wasm target: the same sizes as constants, read back from the module's IR (pointers and usize take 4 bytes)
+        if i % 4 == 0:
+            wq = [(qi, q, lt.replace("usz", "4").replace("ptr", "ptr32")) for qi, (q, lt) in enumerate(queries0) if isinstance(lt, str) and q.startswith("|:")]
+            wsrc = src + "".join("const WZ%d: usize = %s;\n" % (qi, q) for qi, q, _ in wq)
+            wa = run_harness_serial(["alpha\twasm+mods\tmain.pn\t" + esc(wsrc)])[0]
+            wh, wd = kv(wa)
+            total += 1
+            wexp = run_model(["sizeof\t" + lt for _, _, lt in wq]) if wq else []
+            wir = bytes.fromhex(wd["mods"].split(";")[0][2:]).decode("utf-8", "replace") if wd.get("mods", "").startswith("h:") else ""
+            wgot = [(re.search(r"^@WZ%d = .*constant i32 (\d+)" % qi, wir, re.M) or [None, None])[1] for qi, _, _ in wq]
+            if wh == "ok" and wgot == wexp:
+                agreeing += 1
+                dist["sizes-wasm32:agree"] += 1
+            else:
+                rep.violation("sizes-wasm:" + src[:300], {
+                    "why": "|:T| for the wasm32 target differs from the layout model (pointers and usize are 4 bytes there)", "source": wsrc,
+                    "harness_request": "alpha\twasm+mods\tmain.pn\t" + esc(wsrc),
+                    "differences(query, model, implementation)": [(q, e, g) for (_, q, _), e, g in zip(wq, wexp, wgot) if e != g][:10],
+                    "implementation": wa[:300]})
         direct = [(qi, lt) for qi, (_, lt) in enumerate(queries) if isinstance(lt, str)]
         ans = dict(zip([qi for qi, _ in direct], run_model(["sizeof\t" + lt for _, lt in direct])))
         exp = [ans[qi] if isinstance(lt, str) else ans[lt[1]] for qi, (_, lt) in enumerate(queries)]
